@@ -171,4 +171,45 @@ theorem reachNamesDistinct_of_mods (reg : Registry) (linked : List Nat) (m : Mod
     | tail _ hs => exact List.mem_cons_of_mem _ (step_mem hs)
   exact fun a b ha hb hn => h a (hmem a ha) b (hmem b hb) hn
 
+theorem eq_of_nodup_map {α β : Type} (f : α → β) : ∀ (l : List α), (l.map f).Nodup → ∀ a ∈ l, ∀ b ∈ l, f a = f b → a = b
+  | [], _, a, ha, _, _, _ => by cases ha
+  | x :: l, h, a, ha, b, hb, hab => by
+    simp only [List.map_cons, List.nodup_cons] at h
+    rcases List.mem_cons.1 ha with rfl | ha' <;> rcases List.mem_cons.1 hb with rfl | hb'
+    · rfl
+    · exact absurd (hab ▸ List.mem_map_of_mem hb') h.1
+    · exact absurd (hab ▸ List.mem_map_of_mem ha') h.1
+    · exact eq_of_nodup_map f l h.2 a ha' b hb' hab
+
+/-- The usual case: the start is a loaded (sub)module and no two loaded (sub)modules have the same
+name (a decidable condition on the registry). -/
+theorem reachNamesDistinct_of_nodup (reg : Registry) (linked : List Nat) (m : Mod) (hm : m ∈ reg.mods)
+    (h : (reg.mods.map (·.name)).Nodup) : ReachNamesDistinct reg linked m := by
+  have hmem : ∀ a, Reach reg linked m a → a ∈ reg.mods := by
+    intro a ha
+    cases ha with
+    | refl => exact hm
+    | tail _ hs => exact step_mem hs
+  exact fun a b ha hb hn => eq_of_nodup_map (·.name) reg.mods h a (hmem a ha) b (hmem b hb) hn
+
+theorem found_of_mem {ms : List Mod} {s : Mod} {name : String} {g : Stmt} (hs : s ∈ ms)
+    (hd : declares s.stmt name = some g) : ∃ r, found ms name = some r := by
+  induction ms with
+  | nil => cases hs
+  | cons a l ih =>
+    rw [found_cons]
+    cases ha : declares a.stmt name with
+    | some g' => exact ⟨_, rfl⟩
+    | none =>
+      rcases List.mem_cons.1 hs with rfl | hs
+      · rw [hd] at ha; cases ha
+      · exact ih hs
+
+/-- A grouping declared at the top level of any file of the whole module is found from every
+file of it: the top-level binding does not answer `none`. -/
+theorem bindTop_complete (reg : Registry) (linked : List Nat) (m : Mod) (hnames : ReachNamesDistinct reg linked m)
+    (s : Mod) (hs : Reach reg linked m s) (name : String) (g : Stmt) (hd : declares s.stmt name = some g) :
+    ∃ r, bindTop reg linked m name = some r :=
+  found_of_mem (ms := searchOrder reg linked m) (visit_complete reg linked m hnames s hs) hd
+
 end Goyang.Lemmas.Uses
